@@ -247,10 +247,12 @@ func (r *rw) fieldAccess(e ast.Expr) (string, bool) {
 func (r *rw) raceRewrite(f *ast.File) {
 	writes := map[ast.Expr]bool{}
 	skip := map[ast.Expr]bool{}
-	mapIdx := map[*ast.IndexExpr]bool{}   // index expressions on maps (by original node)
-	mapCall := map[*ast.CallExpr]string{} // delete(m,k) / len(m) on maps
-	copyCall := map[*ast.CallExpr]bool{}  // copy(dst, src) on slices (value: src is a slice too)
-	stdCall := map[*ast.CallExpr]string{} // method calls on *bytes.Buffer / *bufio.Writer / *bufio.Reader
+	mapIdx := map[*ast.IndexExpr]bool{}    // index expressions on maps (by original node)
+	sliceIdx := map[*ast.IndexExpr]bool{}  // element accesses s[i] on slices: the backing array is one location
+	mapCall := map[*ast.CallExpr]string{}  // delete(m,k) / len(m) on maps
+	copyCall := map[*ast.CallExpr]bool{}   // copy(dst, src) on slices (value: src is a slice too)
+	stdCall := map[*ast.CallExpr]string{}  // method calls on *bytes.Buffer / *bufio.Writer / *bufio.Reader
+	appendCall := map[*ast.CallExpr]bool{} // append(s, ...): writes behind len(s) in s's backing array
 	ast.Inspect(f, func(n ast.Node) bool {
 		switch st := n.(type) {
 		case *ast.AssignStmt:
@@ -266,6 +268,8 @@ func (r *rw) raceRewrite(f *ast.File) {
 		case *ast.IndexExpr:
 			if r.isMap(st.X) {
 				mapIdx[st] = true
+			} else if r.isSlice(st.X) {
+				sliceIdx[st] = true
 			}
 		case *ast.CallExpr:
 			if id, ok := st.Fun.(*ast.Ident); ok && len(st.Args) >= 1 && r.isMap(st.Args[0]) {
@@ -275,6 +279,9 @@ func (r *rw) raceRewrite(f *ast.File) {
 				case "len":
 					mapCall[st] = "MapR"
 				}
+			}
+			if id, ok := st.Fun.(*ast.Ident); ok && id.Name == "append" && len(st.Args) >= 1 && r.isSlice(st.Args[0]) {
+				appendCall[st] = true
 			}
 			if id, ok := st.Fun.(*ast.Ident); ok && id.Name == "copy" && len(st.Args) == 2 && r.isSlice(st.Args[0]) {
 				copyCall[st] = r.isSlice(st.Args[1])
@@ -304,6 +311,15 @@ func (r *rw) raceRewrite(f *ast.File) {
 	astutil.Apply(f, nil, func(c *astutil.Cursor) bool {
 		switch n := c.Node().(type) {
 		case *ast.IndexExpr:
+			if sliceIdx[n] && !skip[n] {
+				fn := "SliceR"
+				if writes[n] {
+					fn = "SliceW"
+				}
+				r.used = true
+				n.X = call("vsched", fn, n.X, lit("slice contents|"+r.funcOf(n)+"|"+r.pos(n)))
+				return true
+			}
 			if mapIdx[n] {
 				fn := "MapR"
 				if writes[n] {
@@ -324,6 +340,11 @@ func (r *rw) raceRewrite(f *ast.File) {
 				se := n.Fun.(*ast.SelectorExpr)
 				r.used = true
 				se.X = call("vsched", parts[0], se.X, lit(parts[1]+" object|"+r.funcOf(n)+"|"+r.pos(n)))
+				return true
+			}
+			if appendCall[n] {
+				r.used = true
+				n.Args[0] = call("vsched", "SliceA", n.Args[0], lit("slice contents|"+r.funcOf(n)+"|"+r.pos(n)))
 				return true
 			}
 			if srcSlice, ok := copyCall[n]; ok {
